@@ -555,7 +555,7 @@ impl Prop for C20 {
     type Case = CtorCase;
     const ID: &'static str = "C20";
     fn rule() -> &'static str {
-        "constructors: every (cols, rows) from {0..6, 2^32, 2^32+1, 2^62, 2^63, usize::MAX/2, usize::MAX/2+1, usize::MAX-1, usize::MAX}^2 x buffer lengths product + {-1,0,1,7} x {new, init, from_vec, from_box, default, with_capacity, TooDeeView::new, TooDeeViewMut::new} x {u32, drop-tracked element, zero-sized element}; legal <=> (c==0)==(r==0) and c*r does not overflow and the buffer fits (== for owned, >= for views) => exact dimensions and row-major contents (default value / given value / given buffer / slice addresses), otherwise panic (new/init are only given huge dimensions in combinations that must be rejected, so nothing large is ever allocated). From<view> / From<view_mut> of every window embedding (strided, nested) of shapes (0..=4)^2: dimensions and row-major cells of the view, fresh elements, parent untouched. Conversions: Vec / Box<[T]> / into_iter (both ends) / AsRef / AsMut in row-major order; clone equal, independent (fresh elements, mutating either leaves the other). Eq/Hash pairs: identical, same flat data with exchanged / flattened dimensions, one cell changed, different capacity, extra row / column, empty vs emptied. a == b <=> dimensions and cells equal; a == b => equal hashes. Non-trivial = a rejected request, or a strided From<view>, or a pair differing only in shape. Distinct = distinct case."
+        "constructors: every (cols, rows) from {0..6, 2^32, 2^32+1, 2^62, 2^63, usize::MAX/2, usize::MAX/2+1, usize::MAX-1, usize::MAX}^2 x buffer lengths product + {-1,0,1,7} x {new, init, from_vec, from_box, default, with_capacity, TooDeeView::new, TooDeeViewMut::new} x {u32, drop-tracked element, zero-sized element}; legal <=> (c==0)==(r==0) and c*r does not overflow and the buffer fits (== for owned, >= for views) => exact dimensions and row-major contents (default value / given value / given buffer / slice addresses), otherwise panic (new/init are only given huge dimensions in combinations that must be rejected, so nothing large is ever allocated). From<view> / From<view_mut> of every window embedding (strided, nested) of shapes (0..=4)^2: dimensions and row-major cells of the view, fresh elements, parent untouched. Conversions: Vec / Box<[T]> / into_iter (both ends) / AsRef / AsMut in row-major order; clone equal, independent (fresh elements, mutating either leaves the other). Eq/Hash pairs: identical, same flat data with exchanged / flattened dimensions, one cell changed, different capacity, extra row / column, empty vs emptied. a == b <=> dimensions and cells equal; a == b => equal hashes. Non-trivial = a rejected request, or a strided From<view>, or a pair differing only in shape. Distinct = distinct case. Also: clone_from into every target shape up to 4x4 (same, same cell count but different shape, larger, smaller, empty): equal, independent, drop-balanced; an array with a NaN cell is unequal to itself and its clone; arrays whose cells are equal by a key-only Eq / Hash (and &str cells at different addresses) are equal and hash equal."
     }
     fn bound(_t: Tier) -> String {
         "exhaustive: 15x15 dimension pairs x 4 buffer deltas x 8 constructors x 2 element types; From<view>: shapes (0..=4)^2 x margins {0,1,2}^2x{0,1}^2 x view/view_mut x nested; conversions and Eq/Hash pairs: shapes (0..=5)^2".into()
